@@ -71,6 +71,13 @@ func main() {
 				os.Exit(2)
 			}
 			res = runBootCase(&c)
+		case "frame":
+			var c FrameCase
+			if err := json.Unmarshal(b, &c); err != nil {
+				fmt.Fprintf(os.Stderr, "line %d: %v\n", line, err)
+				os.Exit(2)
+			}
+			res = runFrameCase(&c)
 		case "pool":
 			var c PoolCase
 			if err := json.Unmarshal(b, &c); err != nil {
